@@ -43,6 +43,10 @@ P = {
          "re-establishes the invariant; Freelist.v: the persisted list is backend independent. Tie: every history is run under K option schedules re-drawn at every open (backend, freelist-sync, grow-sync, map size, "
          "StrictMode, page size, read-only opens with/without preload) and compared with the one Spec run; accounting on every image; the code's free list after every open vs the decoder's scan.",
          "Mlock is not exercised (needs RLIMIT_MEMLOCK); physical statistics legitimately differ between schedules and are compared with the page-level model instead.", "DESIGN.md §8 C13"),
+ "C15": ("Compact.v models walk + replay on the reference map without a limit parameter (commit points cannot change Spec content). Proved: copying a bucket's entries in walk order rebuilds exactly that bucket "
+         "(one level, all contents); nested sources are covered by kernel-evaluated examples and by the tie only (theorem labelled partial). Tie: library and CLI compaction for 8 limits incl. 1, 2, 7 bytes vs the "
+         "extracted model run on the decoded source image; destination Tx.Check; source SHA-256 before/after.",
+         "The nested induction (paths) is not mechanised yet: C15 is partial on the theorem side.", "DESIGN.md §8 C15"),
  "C12": ("Round-trip theorems between the published layout as a writer specification (LayoutEnc.v) and the independent reader (Layout.v) for integers and checksummed meta pages at any file position; "
          "every file the implementation writes in generated histories is decoded by the extracted reader and compared with the API's report.",
          "Leaf/branch/freelist page round trips are exercised by the correspondence only (theorems so far: integers, meta).", "DESIGN.md §8 C12"),
